@@ -23,6 +23,7 @@ LEVEL_TEXT = (
     "entry itself, before synthetic ones. (2) Structural FIFO rules on every container and loop of the pipeline kernel fd -> reader -> "
     "delay queue -> emitter -> event queue -> dispatcher (append / extend / in-place replace / popleft only; FIFO queue base; single "
     "consumer; top-down walks)."
+    " Also: each simulated record carries the walked entry's own name, join(walk root, name) as path, and the descriptor of the watch just added (directories) or of the parent looked up by dirname (files)."
 )
 
 WANT = {  # kind -> (family for normal mode, family for full mode)
